@@ -72,6 +72,9 @@ type Exec struct {
 	assertSyms   []assertInfo
 	idxTerms     []idxTerm
 	opaqueCalls  []string
+	preWrap2     map[string]bool   // contract functions: stable site keys known (baseline) to need wrap-around
+	key2Count    map[string]int
+	siteKey2     map[string]string // process-local site key -> stable site key
 	curCall      *ssa.CallCommon
 	funcProps    []string // props of the function under contract: all of its obligations count for them
 	boolSymSet   map[string]bool
